@@ -13,10 +13,10 @@ import (
 	"flag"
 	"fmt"
 	"go/ast"
-	"go/printer"
 	"go/constant"
 	"go/importer"
 	"go/parser"
+	"go/printer"
 	"go/token"
 	"go/types"
 	"os"
